@@ -38,7 +38,38 @@ class Fn:
             self.exit = cfg["exit"]
             for b in cfg["blocks"]:
                 self.blocks[b["id"]] = b
+            self._drop_assert_failures()
         self._preds = None
+
+    _ASSERT_FAIL = ("__assert_fail", "__assert", "__assert_perror_fail", "__assert_rtn", "__assert_func")
+
+    def _drop_assert_failures(self):
+        """`assert(c)` expands to `c ? void(0) : __assert_fail(..)`. The failing arm exists in debug builds only and ends the process there; the
+        analyses follow the arm every build has (without taking c for granted: the branch becomes a plain edge). What stands INSIDE an assert
+        is the business of the -DNDEBUG configuration (check driver)."""
+        fail = set()
+        for bid, b in self.blocks.items():
+            if not b.get("noreturn"):
+                continue
+            for e in b.get("elems", []):
+                x = unwrap(e.get("expr")) if isinstance(e.get("expr"), dict) else None
+                if isinstance(x, dict) and x.get("k") == "call" and (x.get("name") or "").split("::")[-1] in self._ASSERT_FAIL:
+                    fail.add(bid)
+        if not fail:
+            return
+        for bid, b in self.blocks.items():
+            ss = b.get("succ", [])
+            if bid in fail or not any(s.get("to") in fail for s in ss):
+                continue
+            keep = [s for s in ss if s.get("to") not in fail]
+            if len(keep) == len(ss):
+                continue
+            b["succ"] = keep
+            if len(keep) <= 1:
+                b["term"] = {"kind": "none"}
+        for bid in fail:
+            self.blocks[bid]["succ"] = []
+            self.blocks[bid]["unreachable_assert"] = True
 
     # --- identity helpers
     @property
